@@ -70,6 +70,10 @@ func runE2ESweep(r *rand.Rand, n int) []e2eSweepCase {
 		return [3]int64{subjNum(row["?s"]), o, 0}
 	}
 	run("having", fmt.Sprintf(`SELECT ?s, ?o FROM ?g WHERE {?s "v"@[] ?o} HAVING ?o > "%d"^^type:int64;`, k), so)
+	// the rows at the END of the table (largest subject, objects in string order) mostly hold large values: both directions,
+	// and a predicate on the subject that fails exactly on the last rows
+	run("having_lt", fmt.Sprintf(`SELECT ?s, ?o FROM ?g WHERE {?s "v"@[] ?o} HAVING ?o < "%d"^^type:int64;`, k), so)
+	run("having_notlast", fmt.Sprintf(`SELECT ?s, ?o FROM ?g WHERE {?s "v"@[] ?o} HAVING NOT ?s = /u<%03d>;`, b[len(b)-1][0]), so)
 	run("orderlimit", `SELECT ?s, ?o FROM ?g WHERE {?s "v"@[] ?o} ORDER BY ?o DESC, ?s LIMIT "7"^^type:int64;`, so)
 	run("groupby", `SELECT ?s, count(?o) AS ?n, sum(?o) AS ?t FROM ?g WHERE {?s "v"@[] ?o} GROUP BY ?s;`, func(row jrow) [3]int64 {
 		var cnt, sum int64
